@@ -93,7 +93,7 @@ func runC22(c *an.Ctx) {
 			c.Add(okW && len(wcalls) > 0, "R1", h+":success-after-write-ok", st, "Result=true only if the writer returned nil", "reach/cut from each writer call")
 		}
 		// mutation and write only after decode ok and encryption enabled
-		pre := []an.Cmp{{L: "decodeKeyRequest($1.Payload,&local:req)", Op: "==", R: "c:nil"}, {L: "(*Serf).EncryptionEnabled($0.serf)", Op: "==", R: "c:true"}}
+		pre := []an.Cmp{{L: "decodeKeyRequest($1.Payload,&local:keyRequest)", Op: "==", R: "c:nil"}, {L: "(*Serf).EncryptionEnabled($0.serf)", Op: "==", R: "c:true"}}
 		for _, t := range append(append([]ssa.Instruction{}, mcalls...), wcalls...) {
 			for _, p := range pre {
 				c.Add(an.GuardedBy(f, t, p), "R1", h+":rejected-changes-nothing:"+kindOf(t)+":"+short(p.L), t, kindOf(t)+" only when "+p.String(), "edge dominance")
@@ -104,7 +104,7 @@ func runC22(c *an.Ctx) {
 		}
 		// the mutator operates on the decoded key of the node's keyring
 		a := an.CallOf(mcalls[0]).Args
-		c.Add(an.Path(a[0]) == "$0.serf.config.MemberlistConfig.Keyring" && an.Path(a[1]) == "local:req.Key", "R1", h+":mutator-operands", mcalls[0], "the handler changes the node's own keyring with the requested key", "argument paths")
+		c.Add(an.Path(a[0]) == "$0.serf.config.MemberlistConfig.Keyring" && an.Path(a[1]) == "local:keyRequest.Key", "R1", h+":mutator-operands", mcalls[0], "the handler changes the node's own keyring with the requested key", "argument paths")
 		// every path replies
 		okReply, _ := an.MustPass(f, nil, func(in ssa.Instruction) bool { return an.IsCallTo(in, "(*serfQueries).sendKeyResponse") })
 		c.Add(okReply, "R1", h+":always-replies", f, "every path of the handler sends a key response", "must-pass")
@@ -241,11 +241,11 @@ func runC23(c *an.Ctx) {
 		}
 		mt := cv(c, serf, "messageKeyResponseType")
 		pay := "<-$2#0.Payload"
-		dec := "decodeMessage(" + pay + "[c:1:],&local:nodeResponse)"
+		dec := "decodeMessage(" + pay + "[c:1:],&local:nodeKeyResponse)"
 		conds := [][]an.Cmp{
 			{{L: "len(" + pay + ")", Op: "<", R: "c:1"}, {L: pay + "[c:0]", Op: "!=", R: mt}},
 			{{L: dec, Op: "!=", R: "c:nil"}},
-			{{L: "local:nodeResponse.Result", Op: "==", R: "c:false"}},
+			{{L: "local:nodeKeyResponse.Result", Op: "==", R: "c:false"}},
 		}
 		used := map[int]bool{}
 		for _, e := range incErr {
@@ -268,7 +268,7 @@ func runC23(c *an.Ctx) {
 			{L: "len(" + pay + ")", Op: ">=", R: "c:1"},
 			{L: pay + "[c:0]", Op: "==", R: mt},
 			{L: dec, Op: "==", R: "c:nil"},
-			{L: "local:nodeResponse.Result", Op: "==", R: "c:true"},
+			{L: "local:nodeKeyResponse.Result", Op: "==", R: "c:true"},
 		}
 		if len(incResp) == 1 {
 			for i, oc := range okConds {
@@ -309,7 +309,7 @@ func runC23(c *an.Ctx) {
 		if len(stream) != 1 {
 			c.Anchor("R2", "one streamKeyResp call in handleKeyRequest")
 		} else {
-			errEdges := append(an.EdgesImplying(hk, an.Cmp{L: "local:complit.NumErr", Op: "!=", R: "c:0"}), an.EdgesImplying(hk, an.Cmp{L: "local:complit.NumResp", Op: "!=", R: "local:complit.NumNodes"})...)
+			errEdges := append(an.EdgesImplying(hk, an.Cmp{L: "local:KeyResponse.NumErr", Op: "!=", R: "c:0"}), an.EdgesImplying(hk, an.Cmp{L: "local:KeyResponse.NumResp", Op: "!=", R: "local:KeyResponse.NumNodes"})...)
 			c.Floor("R2", "failure-condition edges", len(errEdges), 2)
 			for _, r := range an.Returns(hk) {
 				if !an.Reaches(hk, stream[0], r) {
@@ -317,7 +317,7 @@ func runC23(c *an.Ctx) {
 				}
 				v := an.ResultValues(r)
 				if an.IsNilConst(v[1]) {
-					ok := an.GuardedBy(hk, r, an.Cmp{L: "local:complit.NumErr", Op: "==", R: "c:0"}) && an.GuardedBy(hk, r, an.Cmp{L: "local:complit.NumResp", Op: "==", R: "local:complit.NumNodes"})
+					ok := an.GuardedBy(hk, r, an.Cmp{L: "local:KeyResponse.NumErr", Op: "==", R: "c:0"}) && an.GuardedBy(hk, r, an.Cmp{L: "local:KeyResponse.NumResp", Op: "==", R: "local:KeyResponse.NumNodes"})
 					c.Add(ok, "R2", "handleKeyRequest:nil-iff-clean", r, "success is reported only when no node failed and every member replied", "edge dominance")
 				} else {
 					c.Add(an.Guarded(hk, r, errEdges), "R2", "handleKeyRequest:error-only-on-failure", r, "an error after the query ran is reported only when some node failed or fewer nodes replied than are members", "edge dominance")
